@@ -23,6 +23,7 @@ import (
 	"os"
 	osexec "os/exec"
 	"path/filepath"
+	"runtime"
 	"sort"
 	"strings"
 	"sync"
@@ -374,7 +375,15 @@ func TestVerifC17Child(t *testing.T) {
 	cfs := &c17FS{FS: gofs.OsFs(), k: killer, faultCh: make(chan struct{})}
 	opts := fsbinlog.Options{PrefixPath: filepath.Join(plan.Dir, "bl"), Magic: c17SchemaID, MaxChunkSize: plan.Chunk, Fs: cfs}
 	if _, err := os.Stat(opts.PrefixPath + ".000000.bin"); os.IsNotExist(err) {
-		if _, err := fsbinlog.CreateEmptyFsBinlog(opts); err != nil {
+		// harness set-up, made atomic (create aside, rename): a kill must not leave half of the start records
+		tmp := filepath.Join(plan.Dir, fmt.Sprintf("mk%d", os.Getpid()))
+		_ = os.MkdirAll(tmp, 0o755)
+		name, err := fsbinlog.CreateEmptyFsBinlog(fsbinlog.Options{PrefixPath: filepath.Join(tmp, "bl"), Magic: c17SchemaID})
+		if err == nil {
+			err = os.Rename(name, opts.PrefixPath+".000000.bin")
+		}
+		_ = os.RemoveAll(tmp)
+		if err != nil {
 			c17Emit(c17Line{T: "harness", Msg: "create binlog: " + err.Error()})
 			os.Exit(5)
 		}
@@ -564,6 +573,10 @@ func c17Spawn(t vpT, dir string, chunk uint32, seg c17Seg, idx int) c17Run {
 	if err != nil {
 		t.Fatalf("VP-INCONCLUSIVE %v", err)
 	}
+	// Pdeathsig is delivered when the THREAD that forked the child exits: keep this goroutine on its thread
+	// until the child is reaped, so that the Go runtime cannot retire the thread under a live child
+	runtime.LockOSThread()
+	defer runtime.UnlockOSThread()
 	if err := cmd.Start(); err != nil {
 		t.Fatalf("VP-INCONCLUSIVE cannot start child: %v", err)
 	}
@@ -1036,6 +1049,11 @@ func c17Prop(t vpT, c c17Case, dir string, st *c17Stats) (nontrivial bool, class
 		}
 		// --- the binlog as this process left it, read by the harness' own parser
 		d, err := c17ParseBinlog(dir)
+		if err != nil && prev == nil && open == nil && run.killed && strings.Contains(err.Error(), "no first binlog file") {
+			// killed before the harness had even created the binlog: nothing happened in this segment
+			classes = append(classes, "killed-before-setup")
+			continue
+		}
 		if err != nil {
 			t.Fatalf("segment %d (%s): binlog files unreadable for the harness: %v%s", i, c17KillName(c, i), err, diag())
 		}
